@@ -2,6 +2,7 @@ package main
 
 import (
 	"fmt"
+	"sync"
 	"time"
 
 	"verif/internal/explore"
@@ -23,14 +24,24 @@ var coreHistories = []history{histories[0], histories[1], histories[3], historie
 // explored (cheapest / shallowest first, so a deadline cap cuts the deepest).
 func tierGrids() []gridOpts {
 	full := gridOpts{N: 4, MaxR: 3, MaxSlots: 2, Policies: []string{"OrderedReady", "Parallel"},
-		Strategies: []gen.Strategy{gen.RU(0), gen.RU(1), gen.RU(2), gen.RU(4), gen.RU(7), gen.OnDelete(), gen.OnDeleteWithBlock(1)}, Histories: histories, DMin: 0, DMax: 1, Limit: 10}
+		Strategies: []gen.Strategy{gen.RU(0), gen.RU(1), gen.RU(2), gen.RU(4), gen.RU(7), gen.OnDelete(), gen.OnDeleteWithBlock(1), gen.Typeless(2)}, Histories: histories, DMin: 0, DMax: 1, Limit: 10}
 	if explore.Tier() != "thorough" {
 		deep := full
 		deep.MaxSlots, deep.DMin, deep.DMax = 1, 2, 2
 		deep.Strategies = []gen.Strategy{gen.RU(0), gen.RU(2), gen.OnDelete()}
 		deep.Histories = []history{histories[1], histories[3], histories[5]}
 		deep.MinR = 1
-		return []gridOpts{full, deep}
+		// less common configurations on a reduced grid: selector written as expressions, and condemned pods at
+		// multi-digit ordinals (9, 10, 11: numeric vs lexicographic order)
+		odd := full
+		odd.MaxSlots, odd.DMax = 1, 1
+		odd.Strategies = []gen.Strategy{gen.RU(0), gen.RU(2), gen.OnDelete()}
+		odd.Histories = []history{histories[0], histories[1], histories[3]}
+		expr := odd
+		expr.SelExpr = true
+		far := odd
+		far.Far = []int{9, 10, 11}
+		return []gridOpts{full, deep, expr, far}
 	}
 	// thorough: four grids, shallow and wide first
 	a := full
@@ -99,6 +110,35 @@ func snapshotCheck(prop string, mod func(*gridOpts), extraRule string) int {
 		c03ScaleInClause(rep)
 	case "C12":
 		c12CensusClause(rep)
+	}
+	if prop == "C04" {
+		// orphans to adopt, released pods, pods re-created behind the cache: the ownership grid of C10
+		var n int64
+		och := make(chan ownCase, 256)
+		var owg sync.WaitGroup
+		for i := 0; i < explore.Workers(); i++ {
+			owg.Add(1)
+			go func() {
+				defer owg.Done()
+				w := world.New()
+				for c := range och {
+					runOwnCase(rep, w, c, monitorOf("C04"), false)
+				}
+			}()
+		}
+		dl := explore.Deadline(60*time.Second, 5*time.Minute)
+		ownGrid([]string{"same", "other-uid"}, []string{"Parallel", "OrderedReady"}, false, 2, false, func(c ownCase) bool {
+			if c.Revs != defaultOwnRevs || time.Now().After(dl) {
+				return c.Revs != defaultOwnRevs // skip the revision part of the grid
+			}
+			n++
+			och <- c
+			return true
+		})
+		close(och)
+		owg.Wait()
+		rep.AddStates(n, n)
+		rep.Extra["ownership_grid_cases"] = n
 	}
 	lagPhases(rep, prop)
 	if prop == "C03" || prop == "C04" || prop == "C05" || prop == "C14" {
